@@ -23,6 +23,12 @@ CHECKS = {
         text="Every single fault and pair of faults at every rail call site of 2-3 turn conversations, both rail polarities, both Colang versions; generate must return, the reply must be refusal / internal error and never unapproved LLM text, and the following turn is judged with all rails active. Exhaustive within the bound; one known finding (Colang 2.x inverted-polarity rails fail open).",
         note="trusted: as C01; faults are exceptions raised by custom rail actions (LLM provider failures excluded by the statement); dialog-action faults not yet enumerated",
         design_ref="6/C03"),
+    "C12": dict(
+        category="model_checking", engine="CFG",
+        technique="TLC reachability over the control-flow graph of every compiled flow (the real compiler's FlowConfig.elements exported as JSON): CFG.tla tracks position, open scopes, failure-handler stack and forks along every path; Colang 1.0 offsets by V1Closed.tla",
+        text="For every flow of every generated program, every shipped .co file and every program embedded in tests/v2_x, TLC explores every path a head can take through the compiled primitive elements exactly as `slide` moves it and reports unexpanded composites, missing / out-of-range labels, merges without fork, failure-handler underflow, scopes opened twice or left open. Exhaustive per flow.",
+        note="trusted: syntactic exporter (harness/colang2.export_element); non-literal goto conditions are two-way branches (over-approximation); the compiler itself is not modelled - its output is the model",
+        design_ref="6/C12"),
     "C16": dict(
         category="model_checking", engine="RailsPipeline",
         technique="RailsPipeline model with option gating model-checked by TLC; every options script replayed into LLMRails.generate(options=...); reply, LLM-call count and log.activated_rails judged by TLC predicates",
